@@ -163,7 +163,7 @@ Proof. vm_compute. reflexivity. Qed.
 
 Definition ex_cfg : cfg := {| c_uid := 65534; c_gid := 65534; c_ig := true; c_umask := 0; c_reload := false; c_workers := 2 |}.
 Definition ex_cfg2 : cfg := {| c_uid := 33; c_gid := 33; c_ig := false; c_umask := 63; c_reload := true; c_workers := 1 |}.
-Definition ex_hist : list sevent := [SKillWorker 1; SHup 0 ex_cfg2; SUsr2 0; STtin 0; SKillWorker 6; STerm 0].
+Definition ex_hist : list sevent := [SKillWorker 1; SHup 0 ex_cfg2; SUsr2 0 ex_cfg2; STtin 0; SKillWorker 6; STerm 0].
 
 Example history_hypotheses : good_cfg ex_cfg /\ Forall good_ev ex_hist.
 Proof. split; [split; discriminate|]. repeat constructor; discriminate. Qed.
